@@ -284,6 +284,17 @@ pub fn stable_hash<T: Serialize>(v: &T) -> u64 {
     h.finish()
 }
 
+/// evidence samples stay readable: very large cases are abbreviated
+fn sample_of<P: Prop>(case: &P::Case) -> Value {
+    let d = P::describe(case);
+    let s = d.to_string();
+    if s.len() > 1500 {
+        json!({ "abbreviated_case": format!("{}…", s.chars().take(1200).collect::<String>()), "serialized_length": s.len() })
+    } else {
+        d
+    }
+}
+
 fn record<P: Prop>(stats: &mut Stats, case: &P::Case, obs: &Obs, verdict: &Verdict, shard: usize) {
     stats.evaluations += 1;
     stats.executions += obs.executions.max(1);
@@ -301,17 +312,17 @@ fn record<P: Prop>(stats: &mut Stats, case: &P::Case, obs: &Obs, verdict: &Verdi
         let fresh = stats.nontrivial.insert(stable_hash(case));
         // sample a few non-trivial cases, deterministically: the first ones of low shards
         if fresh && shard < 4 && stats.nt_samples.len() < 2 {
-            stats.nt_samples.push(P::describe(case));
+            stats.nt_samples.push(sample_of::<P>(case));
         }
     }
     if shard == 0 && stats.first_samples.len() < 2 {
-        stats.first_samples.push(P::describe(case));
+        stats.first_samples.push(sample_of::<P>(case));
     }
     if let Verdict::Known(k) = verdict {
         let e = stats.known_hits.entry(k).or_insert((0, None));
         e.0 += 1;
         if e.1.is_none() {
-            e.1 = Some(P::describe(case));
+            e.1 = Some(sample_of::<P>(case));
         }
     }
 }
